@@ -26,6 +26,7 @@ HERE = os.path.dirname(os.path.abspath(__file__))
 sys.path.insert(0, HERE)
 import gen  # noqa: E402
 import compopt  # noqa: E402  (leg "compressor configuration and options block", coq/CompOpt)
+import wrap  # noqa: E402  (leg "wrap boundaries of count x element-size products", coq/C05/Wrap.v)
 
 LEVEL = "proof"
 TIMEOUT = 10
@@ -207,8 +208,9 @@ def arg_ok(path):
 # evaluation of a list of images
 # --------------------------------------------------------------------------
 
-def evaluate(ctx, e, cases, pristine=None, tools=True, model=True):
-    """cases: list of (name, bytes).  Returns (violations, stats)."""
+def evaluate(ctx, e, cases, pristine=None, tools=True, model=True, targets=None):
+    """cases: list of (name, bytes).  targets: optional {case index: [(rdsquashfs flag, path bytes)]} = additional
+    queries aimed at particular inodes, each in a process of its own.  Returns (violations, stats)."""
     paths = []
     for i, (name, img) in enumerate(cases):
         p = os.path.join(e.dir, "%06d.sqfs" % i)
@@ -333,6 +335,8 @@ def evaluate(ctx, e, cases, pristine=None, tools=True, model=True):
             tool_jobs.append((i, "sqfsdiff", [e.T["sqfsdiff"], "-a", paths[i], "-b", paths[i]], None))
             if pristine:
                 tool_jobs.append((i, "sqfsdiff", [e.T["sqfsdiff"], "-a", pristine, "-b", paths[i]], None))
+            for fl, tp in (targets or {}).get(i, []):
+                tool_jobs.append((i, "rdsquashfs " + fl, [e.T["rdsquashfs"], fl, tp, paths[i]], None))
     # 3. tools
     if tool_jobs:
         def runt(j):
@@ -368,6 +372,11 @@ def evaluate(ctx, e, cases, pristine=None, tools=True, model=True):
                         detail=dict(tool=label, rc=r["rc"], stderr=r["err"][:500],
                                     correspondence="props/C05: tool verdict = model verdict on the tree query")))
     stats["runs"] += stats["tool_runs"]
+    if targets:
+        tmap = {cases[i][0]: [[fl, tp.decode("latin-1")] for fl, tp in t] for i, t in targets.items()}
+        for v in viol:
+            if v.get("name") in tmap:
+                v.setdefault("detail", {})["targets"] = tmap[v["name"]]
     for p in paths:
         try:
             os.unlink(p)
@@ -528,7 +537,8 @@ def run(ctx):
                                      img=img, name=r.get("image_name"), concrete=True, detail=dict(ops=r["ops"])))
                 ctx.coverage["evaluations"] = 1
             else:
-                viol, st = evaluate(ctx, e, [(r.get("image_name", "replay"), img)])
+                tg = {0: [(fl, tp.encode("latin-1")) for fl, tp in r["targets"]]} if r.get("targets") else None
+                viol, st = evaluate(ctx, e, [(r.get("image_name", "replay"), img)], targets=tg)
                 ctx.coverage["evaluations"] = st["runs"]
         ctx.coverage["rule"] = "replay of " + ctx.replay
         ctx.coverage["distinct_nontrivial"] = 1
@@ -560,6 +570,15 @@ def run(ctx):
         viol += v
         stats_all.append(st)
         ctx.log("structured %d/%d: %d problems so far (%.0fs)" % (min(k + CH, len(cases)), len(cases), len(viol), time.time() - ctx.t0))
+    # wrap boundaries of every count x element-size product the reader computes (props/C05/wrap.py)
+    tw = time.time()
+    wc = wrap.wrap_cases(random.Random(ctx.seed * 104729 + 11), ctx.tier)
+    v, st = evaluate(ctx, e, [(nm, img) for nm, img, _ in wc], targets={k: t for k, (_, _, t) in enumerate(wc)})
+    viol += v
+    stats_all.append(st)
+    nwrap = len(wc)
+    ctx.log("wrap-boundary leg: %d images, %d executions, %d problems so far (%.1fs)" % (
+        nwrap, st["runs"], len(viol), time.time() - tw))
     by_p = {}
     for nm, img, p in real_cases:
         by_p.setdefault(p, []).append((nm, img))
@@ -626,9 +645,15 @@ def run(ctx):
         "with every key at min-1/min/max/max+1 and malformed numbers / suffixes, raw configurations incl. dictionary size shapes "
         "and padding, hostile option blocks: truncated, wrong header size, compressed bit, fields at the range ends; whole "
         "opening sequences) through the real config_init / compressor_cfg_init_options / create / write_options / read_options / "
-        "get_configuration, compared exactly with the extracted model; plus the format-level reading of every written block." % (
-            nfield, len(reals), nmut, ctx.seed, co.get("cases", 0)))
-    ctx.coverage["distribution"] = dict(images=len(cases) + len(real_cases) + 1, transcripts_compared=tot["compared"],
+        "get_configuration, compared exactly with the extracted model; plus the format-level reading of every written block. "
+        "Wrap-boundary leg: %d images with the announced xattr id / fragment / id counts, file block counts and directory "
+        "index entry sizes at the 16 and 32 bit wrap boundaries of count x element size (2^W/E -1/+0/+1/+real, 2*2^W/E+real, "
+        "2^(W-1)/E, field maximum), references just past the real entries / in the second metadata block / medium / "
+        "announced-1 / announced spread over the inodes, each dereferenced by rdsquashfs -x/-c/-s in a process of its own "
+        "beside the harness modes and tool runs (same exact model tie and sanitizer oracle)." % (
+            nfield, len(reals), nmut, ctx.seed, co.get("cases", 0), nwrap))
+    ctx.coverage["distribution"] = dict(images=len(cases) + len(real_cases) + nwrap + 1, wrap_boundary_images=nwrap,
+                                        transcripts_compared=tot["compared"],
                                         transcripts_equal=tot["agree"], not_comparable_other_codec=tot["unk"],
                                         images_with_full_tree=tot["tree_ok"], tool_runs=tot["tool_runs"],
                                         tool_verdicts_checked=tot["verdict_checked"], meta_sequences=nmeta,
